@@ -1,7 +1,19 @@
 // Group `mainwire`: the wiring of the CLI that is outside every other contract group.
-//   A1..A5  accessors of `flags::Args` (src/flags.rs): `extensions`, `disabled_validators`,
-//           `enabled_validators`, `globs`, `ignored_globs`
-// Properties: C14 (A2, A3), C15 (A4, A5), C16 (A1), C04 (safety).
+//   A1..A5  accessors of `flags::Args` (src/flags.rs): `extensions` (the -E map, later entries win),
+//           `disabled_validators` / `enabled_validators` (the SET of names), `globs` (positional + `list`
+//           globs as one glob set, Err on an invalid pattern), `ignored_globs` (the --ignore set)
+//   M2      `repository_root_path` (src/main.rs): the nearest ancestor, the path itself included, that has a
+//           `.git` or `.hg` DIRECTORY, else Err
+//   FS1..3  `FileSystemImpl::{new, read_to_string, walk}` (src/blocks.rs): every read is `root.join(path)`;
+//           the walk skips directories, reports paths relative to the root, passes errors on
+//   M1c     `ValidationContext::new`
+//   M1      `main` (src/main.rs), whole function; its last statements are unit V8g of group report (rule
+//           SLICE-CALL). The process environment is a set of uninterpreted "world" functions; the callees
+//           under contract elsewhere are stubs (F1, PCn, V10, V8g with their proven contracts; Da, B7, L2 as
+//           uninterpreted `*_spec` functions); the C11/C14/C15/C16 statements are obligations at the call
+//           sites (labels `M1.post.*` on the stubs' preconditions) plus postconditions on the result.
+// Properties: C14 (A2, A3, M1), C15 (A4, A5, M2, FS2, FS3, M1), C16 (A1, M1), C11 (M1), C13 (M1: every `?`),
+// C20 (M2, FS2, FS3: root-relative paths), C04 (safety obligations of all units).
 // Notes: contracts/groups/mainwire.notes.md
 use vstd::prelude::*;
 use std::collections::{HashMap, HashSet};
@@ -15,18 +27,19 @@ use std::sync::Arc;
 //@include prelude/tstr_mod.rs
 //@include prelude/mainw_globset.rs
 //@include prelude/mainw_ignore.rs
-//@include prelude/orch_ext.rs
+//@include prelude/mainw_serde.rs
+//@include prelude/mainw_paths.rs
 use ignore::Walk;
 use anyhow::Context;
-use globset::*;
+use globset::{Glob, GlobSet, GlobSetBuilder, compile_all, glob_of, glob_set_of, glob_set_build, glob_count, glob_matches, glob_match_one,
+    axiom_glob_set_build, axiom_double_star_matches_all};
 
 verus! {
 
-broadcast use {vstd::std_specs::hash::group_hash_axioms, mainw_ax::group_mainw_ax, tstr::group_tstr, globset::group_globset};
+broadcast use {vstd::std_specs::hash::group_hash_axioms, mainw_ax::group_mainw_ax, tstr::group_tstr, globset::group_globset, mainw_paths::group_mainw_paths};
 
 //@include prelude/orch_model.rs
 //@include prelude/mainw_args.rs
-//@include prelude/mainw_paths.rs
 
 //@item file=src/flags.rs kind=enum name=SubCommand
 //@item file=src/flags.rs kind=struct name=Args
@@ -199,54 +212,13 @@ verif_osstring_from($a)
 // M2: `repository_root_path` (src/main.rs). C15: "under the repository root ... wherever blockwatch is
 // started inside the repository"; C20: "paths relative to repository root".
 
-/// a repository root: a directory that has a `.git` or a `.hg` DIRECTORY in it
-pub open spec fn is_repo_root(p: PathBuf) -> bool {
-    is_dir_spec(path_join_spec(p, ".git"@)) || is_dir_spec(path_join_spec(p, ".hg"@))
-}
-
-/// `root` is the NEAREST ancestor of `start` (the path itself included) that is a repository root
-pub open spec fn nearest_repo_root(start: PathBuf, root: PathBuf) -> bool {
-    exists|i: int| 0 <= i < ancestors_spec(start).len() && #[trigger] ancestors_spec(start)[i] == root
-        && is_repo_root(root) && (forall|j: int| 0 <= j < i ==> !is_repo_root(#[trigger] ancestors_spec(start)[j]))
-}
-
-/// no ancestor of `start` (the path itself included) is a repository root
-pub open spec fn no_repo_root(start: PathBuf) -> bool {
-    forall|i: int| 0 <= i < ancestors_spec(start).len() ==> !is_repo_root(#[trigger] ancestors_spec(start)[i])
-}
-
-/// `repository_root_path` as a function (`None` = `Err`)
-pub open spec fn repo_root_spec(start: PathBuf) -> Option<PathBuf> {
-    if no_repo_root(start) { None } else { Some(choose|root: PathBuf| nearest_repo_root(start, root)) }
-}
-
-/// the nearest root is unique, so `repo_root_spec` is THE root
-pub proof fn lemma_nearest_root_unique(start: PathBuf, r1: PathBuf, r2: PathBuf)
-    requires nearest_repo_root(start, r1), nearest_repo_root(start, r2),
-    ensures r1 == r2,
-{
-    let anc = ancestors_spec(start);
-    let i1 = choose|i: int| 0 <= i < anc.len() && #[trigger] anc[i] == r1 && is_repo_root(r1) && (forall|j: int| 0 <= j < i ==> !is_repo_root(#[trigger] anc[j]));
-    let i2 = choose|i: int| 0 <= i < anc.len() && #[trigger] anc[i] == r2 && is_repo_root(r2) && (forall|j: int| 0 <= j < i ==> !is_repo_root(#[trigger] anc[j]));
-    if i1 < i2 { assert(!is_repo_root(anc[i1])); }
-    if i2 < i1 { assert(!is_repo_root(anc[i2])); }
-}
-
-/// started in the root itself: the root is the start path (`ancestors` begins with the path itself)
-pub proof fn lemma_start_path_counts(start: PathBuf)
-    requires is_repo_root(start),
-    ensures nearest_repo_root(start, start), // [M2.lemma.start_path_itself_counts]
-{
-    axiom_ancestors_start_with_self(start);
-    assert(ancestors_spec(start)[0] == start);
-}
-
 //@unit id=M2 file=src/main.rs fn=repository_root_path ret=r
 //@contract
     ensures
         r matches Ok(root) ==> nearest_repo_root(current_path, root), // [M2.post.nearest_ancestor_with_git_or_hg_dir]
         r is Err ==> no_repo_root(current_path), // [M2.post.err_only_without_root]
-        r matches Ok(root) ==> repo_root_spec(current_path) == Some(root), // [M2.post.is_spec]
+        // summary used by M1 (the nearest root is unique: `lemma_nearest_root_is_spec`)
+        r matches Ok(root) ==> nearest_repo_root(current_path, root) && repo_root_spec(current_path) == Some(root), // [M2.post.is_spec]
         r is Err ==> repo_root_spec(current_path) is None,
 //@macro rule=E1 name=anyhow to=<<anyhow::verif_err()>> optional=1
 //@closure rule=E12 find=<<|path|>> nth=0 of=2 params=<<|path: &&Path|>> ret=<<hit: bool>>
@@ -254,7 +226,520 @@ pub proof fn lemma_start_path_counts(start: PathBuf)
 //@closure rule=E12 find=<<|path|>> params=<<|path: &Path|>> ret=<<owned: PathBuf>>
             ensures owned == path_owned(path), // [M2.closure.owned_copy]
 //@chain rule=E13 find=<<.join(>> to=verif_path_join_str argkind=str count=all optional=1
-//@chain rule=E3 find=<<.ancestors().find(>> to=verif_ancestors_find recvprefix=<<&>> extra=<<Ghost(|p: PathBuf| is_repo_root(p))>>
+//@chain rule=E13 find=<<.ancestors()>> to=verif_ancestors recvprefix=<<&>>
+//@chain rule=E3 find=<<.find(>> to=verif_iter_find extra=<<Ghost(|p: PathBuf| is_repo_root(p))>> optional=1
+//@chain rule=E3 find=<<.filter(>> to=verif_iter_filter extra=<<Ghost(|p: PathBuf| is_repo_root(p))>> optional=1
+//@end
+
+// ---------------------------------------------------------------------------------------------
+// FS1..FS3: `FileSystemImpl` (src/blocks.rs). C15: "Diff paths are resolved against the repository
+// root ... wherever blockwatch is started inside the repository"; C20: "paths relative to repository
+// root"; C11: "each root-relative file path".
+//@item file=src/blocks.rs kind=struct name=FileSystemImpl
+
+/// C15/C20: the path a walked entry is reported under: relative to the root (the entry's own path if
+/// it is not below the root)
+pub open spec fn relative_to(root: PathBuf, p: PathBuf) -> PathBuf {
+    match path_strip_prefix_spec(p, root) {
+        Some(rel) => rel,
+        None => p,
+    }
+}
+
+/// what the walk makes of one entry: directories are skipped, files are reported relative to the
+/// root, errors are passed on (never dropped, never turned into a path)
+pub open spec fn walk_item_ok(root: PathBuf, entry: Result<ignore::DirEntry, ignore::Error>, o: Option<anyhow::Result<PathBuf>>) -> bool {
+    match entry {
+        Ok(e) => if is_dir_spec(e.path_spec()) { o is None } else { o == Some(Ok::<PathBuf, anyhow::Error>(relative_to(root, e.path_spec()))) },
+        Err(_) => o matches Some(Err(_)),
+    }
+}
+
+/// `items` is what `FileSystemImpl::walk` yields for the directory walk `entries` below `root`
+pub open spec fn walk_items_ok(root: PathBuf, entries: Seq<Result<ignore::DirEntry, ignore::Error>>, items: Seq<anyhow::Result<PathBuf>>) -> bool {
+    exists|outs: Seq<Option<anyhow::Result<PathBuf>>>| outs.len() == entries.len()
+        && (forall|i: int| 0 <= i < outs.len() ==> walk_item_ok(root, entries[i], #[trigger] outs[i]))
+        && items == somes(outs)
+}
+
+impl FileSystemImpl {
+
+//@unit id=FS1 file=src/blocks.rs fn=<<impl FileSystemImpl::new>> ret=r
+//@contract
+        ensures r.root_path == root_path, // [FS1.post.rooted_at_argument]
+//@end
+
+// FS2: every read goes through the root (never the current directory)
+//@unit id=FS2 file=src/blocks.rs fn=<<impl FileSystem for FileSystemImpl::read_to_string>>
+//@sig rule=E7 was=<<fn read_to_string(&self, path: &Path) -> anyhow::Result<String>>>
+    fn read_to_string(&self, path: &Path) -> (r: anyhow::Result<String>)
+//@contract
+        ensures
+            r matches Ok(s) ==> disk_read_spec(path_join_path_spec(self.root_path, path_owned(path))) == Some(s@), // [FS2.post.reads_path_joined_to_root]
+            r is Err ==> disk_read_spec(path_join_path_spec(self.root_path, path_owned(path))) is None, // [FS2.post.err_iff_unreadable]
+//@macro rule=E1 name=format to=<<anyhow::verif_msg()>> optional=1
+//@chain rule=E13 find=<<.join(>> to=verif_path_join recvprefix=<<&>> count=all optional=1
+//@edit rule=E13 find=<<std::fs::read_to_string(>> optional=1
+verif_fs_read_to_string(
+//@end
+
+// FS3: the walk: directories skipped, paths relative to the root, errors passed on
+//@unit id=FS3 file=src/blocks.rs fn=<<impl FileSystem for FileSystemImpl::walk>>
+//@sig rule=E7 was=<<fn walk(&self) -> impl Iterator<Item = anyhow::Result<PathBuf>>>>
+    fn walk(&self) -> (r: WalkIter)
+//@contract
+        ensures
+            walk_items_ok(self.root_path, ignore::walk_entries_spec(self.root_path), r.pending()), // [FS3.post.files_relative_to_root_dirs_skipped_errors_kept]
+//@closure rule=E12 find=<<|entry|>> params=<<|entry: Result<ignore::DirEntry, ignore::Error>|>> ret=<<o: Option<anyhow::Result<PathBuf>>>>
+            ensures walk_item_ok(root_path, entry, o), // [FS3.closure.dir_skipped_file_relative_err_kept]
+//@chain rule=E13 find=<<.strip_prefix(>> to=verif_path_strip_prefix optional=1
+//@chain rule=E13 find=<<.join(>> to=verif_path_join_str argkind=str count=all optional=1
+//@chain rule=E3 find=<<.filter_map(>> to=verif_walk_filter_map
+//@end
+
+} // impl FileSystemImpl
+
+// ---------------------------------------------------------------------------------------------
+// M1: `main` (src/main.rs). The process environment is a set of uninterpreted constants / functions
+// ("the world": command line, grammar table, stdin, environment, disk). `main` returns nothing but
+// `Result<()>`; what it DOES is the sequence of calls it makes. Its specification is therefore
+//   (a) a functional model of the wiring, written from the statements of C11 / C14 / C15 / C16 as closed
+//       terms over the world (`expected_allow`, `expected_scan`, `expected_root`, `expected_blocks`, ...),
+//   (b) obligations AT THE CALL SITES of the effectful callees (preconditions of their stubs, labelled
+//       `M1.post.*`): each callee must be handed exactly the model's value, and may only be called once
+//       the command line has been accepted (`!cli_rejected()`), resp. not at all under `list`,
+//   (c) ordinary postconditions for what the result tells: rejected command line => `Err`, every failing
+//       step => `Err`.
+
+//@item file=src/diff_parser.rs kind=struct name=LineChange
+//@item file=src/blocks.rs kind=struct name=PathCheckerImpl
+//@item file=src/validators/mod.rs kind=type name=SyncValidators
+//@item file=src/validators/mod.rs kind=type name=AsyncValidators
+
+/// `LanguageParser = Rc<RefCell<Box<dyn BlocksParser>>>`: opaque stand-in (T-ext; same as in prelude/blocks_sel.rs)
+#[verifier::external_body]
+pub struct LanguageParser { p: std::rc::Rc<std::cell::RefCell<Box<dyn std::any::Any>>> }
+
+//@copyfrom file=groups/detect.rs from=<<// `type DetectorFactory = fn()>> until=<<// ---- E3 shim>>
+
+//@copyfrom file=groups/report.rs from=<</// some violation of the run has severity>> until=<</// the JSON value of one violation>>
+
+// ---- the world ---------------------------------------------------------------------------------------
+/// what clap makes of this process's command line (`Args::parse()`; exits on a syntax error)
+pub uninterp spec fn process_args() -> Args;
+/// the grammar table `language_parsers()` builds (`None` = `Err`)
+pub uninterp spec fn grammar_table() -> Option<Map<OsString, LanguageParser>>;
+/// `std::io::stdin().is_terminal()`
+pub uninterp spec fn stdin_is_terminal() -> bool;
+/// `std::env::var(name)` (`None` = `Err`: not set, or not Unicode)
+pub uninterp spec fn env_var_spec(name: Seq<char>) -> Option<Seq<char>>;
+/// `std::env::current_dir()` (`None` = `Err`)
+pub uninterp spec fn current_dir_spec() -> Option<PathBuf>;
+/// `std::fs::canonicalize(p)` (`None` = `Err`)
+pub uninterp spec fn canonicalize_spec(p: PathBuf) -> Option<PathBuf>;
+/// everything that can be read from stdin (`None` = read error / not UTF-8)
+pub uninterp spec fn stdin_text() -> Option<Seq<char>>;
+/// `diff_parser::line_changes_from_diff` (unit Da of group difflines) as a function, `None` = `Err`
+pub uninterp spec fn diff_line_changes_spec(diff: Seq<char>) -> Option<Map<PathBuf, Vec<LineChange>>>;
+/// `blocks::parse_blocks` (unit B7 of group blocksel) as a function of its arguments, `None` = `Err`
+pub uninterp spec fn parse_blocks_spec(line_changes: Map<PathBuf, Vec<LineChange>>, should_scan_files: bool, root: PathBuf,
+    allow: GlobSet, ignore: GlobSet, parsers: Map<OsString, LanguageParser>, extra: Map<OsString, OsString>) -> Option<Map<PathBuf, FileBlocks>>;
+/// `ValidationContext::to_serializable_report` (unit L2 of group listreport) as a function
+pub uninterp spec fn list_report_spec(blocks: Map<PathBuf, FileBlocks>) -> Map<PathBuf, Vec<serde_json::Value>>;
+/// writing this report to stdout succeeds (`serde_json::to_writer_pretty(stdout, ..)` returns `Ok`). Uninterpreted:
+/// the only way to learn it is to make the call, so an `Ok` result that claims it is evidence of the call.
+pub uninterp spec fn stdout_write_ok_spec(report: Map<PathBuf, Vec<serde_json::Value>>) -> bool;
+/// the constant `validators::DETECTOR_FACTORIES`
+pub uninterp spec fn detector_table() -> Seq<(&'static str, DetectorFactory)>;
+
+// ---- the model: what `main` has to hand to its callees (from C11 / C14 / C15 / C16) ------------------------
+/// C14: "Using both flags together ... is rejected"
+pub open spec fn both_flags(a: Args) -> bool {
+    a.disabled_validators@.len() > 0 && a.enabled_validators@.len() > 0
+}
+
+/// C16: "a `-E` mapping onto an unsupported grammar is rejected"
+pub open spec fn unsupported_mapping(a: Args, table: Map<OsString, LanguageParser>) -> bool {
+    exists|i: int| 0 <= i < a.extensions@.len() && !table.contains_key(osstring_of(#[trigger] a.extensions@[i].1@))
+}
+
+/// the command line of this process must be rejected
+pub open spec fn cli_rejected() -> bool {
+    grammar_table() matches Some(table) && (both_flags(process_args()) || unsupported_mapping(process_args(), table))
+}
+
+pub open spec fn is_list_command(a: Args) -> bool {
+    a.command matches Some(SubCommand::List { globs })
+}
+
+/// "run interactively": stdin is a terminal (or the environment says so): there is no diff to read
+pub open spec fn terminal_mode() -> bool {
+    stdin_is_terminal() || env_var_spec("BLOCKWATCH_TERMINAL_MODE"@) is Some
+}
+
+/// the glob set of the single pattern `**`
+pub open spec fn match_all_set() -> Option<GlobSet> {
+    match glob_of("**"@) {
+        Some(g) => glob_set_build(seq![g]),
+        None => None,
+    }
+}
+
+/// C15: the files examined are those that match "a positional glob - all of them when run interactively
+/// with neither glob nor diff": the positional globs, except that with NO positional glob in terminal
+/// mode it is the match-all set
+pub open spec fn expected_allow() -> Option<GlobSet> {
+    match glob_set_of(positional_patterns(process_args())) {
+        None => None,
+        Some(gs) => if glob_count(gs) == 0 && terminal_mode() { match_all_set() } else { Some(gs) },
+    }
+}
+
+/// C15 / C02: the tree is scanned iff, after that defaulting, there is a glob at all
+pub open spec fn expected_scan() -> bool {
+    expected_allow() matches Some(gs) && glob_count(gs) != 0
+}
+
+/// C15: "minus anything matching an `--ignore` glob"
+pub open spec fn expected_ignore() -> Option<GlobSet> {
+    glob_set_of(ignore_patterns(process_args()))
+}
+
+/// C15 / C20: the repository root found from the canonical current directory
+pub open spec fn expected_root() -> Option<PathBuf> {
+    match current_dir_spec() {
+        None => None,
+        Some(cwd) => match canonicalize_spec(cwd) {
+            None => None,
+            Some(c) => repo_root_spec(c),
+        },
+    }
+}
+
+/// the diff is read from stdin iff NOT in terminal mode; otherwise there are no line changes
+pub open spec fn expected_line_changes() -> Option<Map<PathBuf, Vec<LineChange>>> {
+    if terminal_mode() {
+        Some(Map::empty())
+    } else {
+        match stdin_text() {
+            None => None,
+            Some(t) => diff_line_changes_spec(t),
+        }
+    }
+}
+
+/// the blocks of the run
+pub open spec fn expected_blocks() -> Option<Map<PathBuf, FileBlocks>> {
+    if grammar_table() is Some && expected_allow() is Some && expected_ignore() is Some && expected_root() is Some && expected_line_changes() is Some {
+        parse_blocks_spec(expected_line_changes().unwrap(), expected_scan(), expected_root().unwrap(), expected_allow().unwrap(), expected_ignore().unwrap(),
+            grammar_table().unwrap(), ext_map(process_args().extensions@))
+    } else {
+        None
+    }
+}
+
+/// C11: what `list` prints
+pub open spec fn expected_list_report() -> Option<Map<PathBuf, Vec<serde_json::Value>>> {
+    match expected_blocks() {
+        Some(b) => Some(list_report_spec(b)),
+        None => None,
+    }
+}
+
+/// `compile_all` yields one glob per pattern
+pub proof fn lemma_compile_all_len(pats: Seq<Seq<char>>, n: int)
+    requires 0 <= n <= pats.len(),
+    ensures compile_all(pats, n) matches Some(gs) ==> gs.len() == n,
+    decreases n,
+{
+    if n > 0 { lemma_compile_all_len(pats, n - 1); }
+}
+
+/// The model read back against the statement of C15 (three cases): positional globs given => exactly
+/// those, and the tree is scanned; none + interactive => every path is allowed, and the tree is scanned;
+/// none + piped diff => nothing is scanned (only the diff's files are examined).
+pub proof fn lemma_scope_cases()
+    requires glob_set_of(positional_patterns(process_args())) is Some,
+    ensures
+        positional_patterns(process_args()).len() > 0 ==> expected_allow() == glob_set_of(positional_patterns(process_args())) && expected_scan(), // [M1.lemma.globs_given_scan_those]
+        positional_patterns(process_args()).len() == 0 && terminal_mode() && match_all_set() is Some // [M1.lemma.no_globs_interactive_scan_everything]
+            ==> expected_allow() == match_all_set() && expected_scan() && (forall|path: Seq<char>| #[trigger] glob_matches(expected_allow().unwrap(), path)),
+        positional_patterns(process_args()).len() == 0 && !terminal_mode() ==> !expected_scan(), // [M1.lemma.no_globs_piped_diff_no_scan]
+{
+    let pats = positional_patterns(process_args());
+    lemma_compile_all_len(pats, pats.len() as int);
+    let gs = compile_all(pats, pats.len() as int).unwrap();
+    axiom_glob_set_build(gs);
+    if match_all_set() is Some {
+        let g = glob_of("**"@).unwrap();
+        axiom_glob_set_build(seq![g]);
+        assert forall|path: Seq<char>| #[trigger] glob_matches(match_all_set().unwrap(), path) by {
+            axiom_double_star_matches_all(path);
+            assert(glob_match_one(seq![g][0], path));
+        }
+    }
+}
+
+// ---- stand-ins for `main`'s callees: std / external effects ------------------------------------------------
+#[verifier::external_type_specification]
+#[verifier::external_body]
+pub struct ExStdin(std::io::Stdin);
+
+#[verifier::external_type_specification]
+#[verifier::external_body]
+pub struct ExStdout(std::io::Stdout);
+
+#[verifier::external_type_specification]
+#[verifier::external_body]
+pub struct ExVarError(std::env::VarError);
+
+pub assume_specification[ std::io::stdin ]() -> std::io::Stdin;
+pub assume_specification[ std::io::stdout ]() -> std::io::Stdout;
+
+/// E1: `?` on a `std::io::Error` in a function returning `anyhow::Result`
+impl From<std::io::Error> for anyhow::Error {
+    #[verifier::external_body]
+    fn from(e: std::io::Error) -> anyhow::Error { anyhow::verif_err() }
+}
+
+/// E13 shim: `stdin.is_terminal()` (`std::io::IsTerminal`, a trait method). Body = the identical std call.
+#[verifier::external_body]
+pub fn verif_is_terminal(s: std::io::Stdin) -> (r: bool)
+    ensures r == stdin_is_terminal(),
+{ use std::io::IsTerminal; s.is_terminal() }
+
+/// E13 shim: `stdin.read_to_string(&mut buf)` (`std::io::Read`, a trait method; "Read all bytes until EOF
+/// in this source, appending them to buf"). Body = the identical std call.
+/// Call-site obligations (M1): only after the command line was accepted, and only when NOT in terminal mode.
+#[verifier::external_body]
+pub fn verif_stdin_read_to_string(s: std::io::Stdin, buf: &mut String) -> (r: Result<usize, std::io::Error>)
+    requires
+        !cli_rejected(), // [M1.post.invalid_flags_rejected_before_reading_the_diff]
+        !terminal_mode(), // [M1.post.diff_read_only_when_not_terminal]
+    ensures
+        r is Ok ==> (stdin_text() matches Some(t) && final(buf)@ == old(buf)@ + t),
+        r is Err ==> stdin_text() is None,
+{ use std::io::Read; let mut s = s; s.read_to_string(buf) }
+
+/// E13 shim: `languages.keys().collect()` into a `HashSet<&OsString>`. Body = the identical std chain;
+/// std docs of `HashMap::keys` ("visiting all keys") and `FromIterator for HashSet`.
+#[verifier::external_body]
+pub fn verif_keys_collect_set<'a, V>(m: &'a HashMap<OsString, V>) -> (r: HashSet<&'a OsString>)
+    ensures forall|k: &'a OsString| #[trigger] r@.contains(k) <==> m@.contains_key(*k),
+{ m.keys().collect() }
+
+pub mod env {
+    use super::*;
+    /// `std::env::var<K: AsRef<OsStr>>(key)` at `&str`
+    #[verifier::external_body]
+    pub fn var(key: &str) -> (r: Result<String, std::env::VarError>)
+        ensures r is Ok <==> env_var_spec(key@) is Some,
+    { std::env::var(key) }
+
+    #[verifier::external_body]
+    pub fn current_dir() -> (r: Result<PathBuf, std::io::Error>)
+        ensures
+            r matches Ok(p) ==> current_dir_spec() == Some(p),
+            r is Err ==> current_dir_spec() is None,
+    { std::env::current_dir() }
+}
+
+pub mod fs {
+    use super::*;
+    /// `std::fs::canonicalize<P: AsRef<Path>>(path)` at `PathBuf`
+    #[verifier::external_body]
+    pub fn canonicalize(path: PathBuf) -> (r: Result<PathBuf, std::io::Error>)
+        ensures
+            r matches Ok(p) ==> canonicalize_spec(path) == Some(p),
+            r is Err ==> canonicalize_spec(path) is None,
+    { std::fs::canonicalize(path) }
+}
+
+pub mod serde_json {
+    pub use crate::serde_json_types::{Error, Result, Value};
+    use super::*;
+    /// E1: `.context(..)` / `?` on a `serde_json::Error`
+    impl From<Error> for anyhow::Error {
+        #[verifier::external_body]
+        fn from(e: Error) -> anyhow::Error { anyhow::verif_err() }
+    }
+
+    /// `serde_json::to_writer_pretty(std::io::stdout(), &report)`: the output itself is not modelled.
+    /// Call-site obligations (M1, C11): only under `list`, only after the command line was accepted,
+    /// and what is written is the report of the run's blocks.
+    #[verifier::external_body]
+    pub fn to_writer_pretty(w: std::io::Stdout, v: &HashMap<PathBuf, Vec<Value>>) -> (r: Result<()>)
+        requires
+            !cli_rejected(), // [M1.post.invalid_flags_rejected_before_listing]
+            is_list_command(process_args()), // [M1.post.report_written_only_for_list]
+            Some(v@) == expected_list_report(), // [M1.post.list_writes_report_of_the_runs_blocks]
+        ensures
+            r is Ok <==> stdout_write_ok_spec(v@),
+    { unimplemented!() }
+}
+
+// ---- stand-ins for `main`'s callees: functions of /repo under contract elsewhere -----------------------------
+impl Args {
+    /// `<Args as clap::Parser>::parse()`
+    #[verifier::external_body]
+    pub fn parse() -> (r: Args)
+        ensures r == process_args(),
+    { unimplemented!() }
+}
+
+//@copyfrom file=groups/flags.rs from=<</// some `-E KEY=VALUE` maps onto>> until=<<impl Args {>>
+
+impl Args {
+//@stubof group=flags unit=F1
+
+}
+
+impl PathCheckerImpl {
+//@stubof group=scope unit=PCn
+
+}
+
+pub mod flags {
+    pub use super::{Args, SubCommand};
+}
+
+pub mod language_parsers {
+    use super::*;
+    /// `language_parsers()` (its table statements are unit C16.table of group blocksel)
+    #[verifier::external_body]
+    pub fn language_parsers() -> (r: anyhow::Result<HashMap<OsString, LanguageParser>>)
+        ensures
+            r matches Ok(m) ==> grammar_table() == Some(m@),
+            r is Err ==> grammar_table() is None,
+    { unimplemented!() }
+}
+
+pub mod diff_parser {
+    use super::*;
+    /// unit Da of group difflines (whose contract is stated over the parsed patch; here only: a
+    /// function of the text). Call-site obligations (M1): after the command line was accepted; the text
+    /// parsed is what was read from stdin.
+    #[verifier::external_body]
+    pub fn line_changes_from_diff(patch_diff: &str) -> (r: anyhow::Result<HashMap<PathBuf, Vec<LineChange>>>)
+        requires
+            !cli_rejected(), // [M1.post.invalid_flags_rejected_before_parsing_the_diff]
+            Some(patch_diff@) == stdin_text(), // [M1.post.diff_is_what_stdin_delivered]
+        ensures
+            r matches Ok(m) ==> diff_line_changes_spec(patch_diff@) == Some(m@),
+            r is Err ==> diff_line_changes_spec(patch_diff@) is None,
+    { unimplemented!() }
+}
+
+pub mod blocks {
+    use super::*;
+    pub use super::{FileSystemImpl, PathCheckerImpl};
+
+    /// unit B7 of group blocksel, at the instance `main` uses (`&impl FileSystem` = `&FileSystemImpl`,
+    /// `&impl PathChecker` = `&PathCheckerImpl`). Call-site obligations (M1): see the labels.
+    #[verifier::external_body]
+    pub fn parse_blocks(
+        line_changes_by_file: HashMap<PathBuf, Vec<LineChange>>,
+        should_scan_files: bool,
+        file_system: &FileSystemImpl,
+        path_checker: &PathCheckerImpl,
+        parsers: HashMap<OsString, LanguageParser>,
+        extra_file_extensions: HashMap<OsString, OsString>,
+    ) -> (r: anyhow::Result<HashMap<PathBuf, FileBlocks>>)
+        requires
+            // C14 / C16: nothing is parsed before the command line has been accepted
+            !cli_rejected(), // [M1.post.invalid_flags_rejected_before_parsing]
+            // C15: the diff read from stdin iff not in terminal mode, else no line changes
+            Some(line_changes_by_file@) == expected_line_changes(), // [M1.post.line_changes_from_stdin_iff_not_terminal]
+            // C15: the positional globs, or everything when interactive without globs
+            Some(path_checker.glob_set) == expected_allow(), // [M1.post.allow_set_is_globs_or_match_all_when_interactive]
+            // C15 / C02: globs => scan; no globs + terminal => scan everything; no globs + piped diff => no scan
+            should_scan_files == expected_scan(), // [M1.post.scan_iff_glob_set_nonempty_after_defaulting]
+            // C15: --ignore
+            Some(path_checker.ignored_glob_set) == expected_ignore(), // [M1.post.ignore_set_is_the_ignore_flags]
+            // C15 / C20: every path goes through the file system rooted at the repository root
+            Some(file_system.root_path) == expected_root(), // [M1.post.files_resolved_against_repository_root]
+            // C16: the grammar table and the validated -E map
+            Some(parsers@) == grammar_table(), // [M1.post.grammar_table_passed_on]
+            extra_file_extensions@ == ext_map(process_args().extensions@), // [M1.post.extension_map_passed_on]
+        ensures
+            r matches Ok(b) ==> parse_blocks_spec(line_changes_by_file@, should_scan_files, file_system.root_path, path_checker.glob_set,
+                path_checker.ignored_glob_set, parsers@, extra_file_extensions@) == Some(b@),
+            r is Err ==> parse_blocks_spec(line_changes_by_file@, should_scan_files, file_system.root_path, path_checker.glob_set,
+                path_checker.ignored_glob_set, parsers@, extra_file_extensions@) is None,
+    { unimplemented!() }
+}
+
+impl ValidationContext {
+//@unit id=M1c file=src/validators/mod.rs fn=<<impl ValidationContext::new>> ret=r
+//@contract
+        ensures r.blocks == blocks, // [M1c.post.holds_the_blocks]
+//@end
+
+    /// unit L2 of group listreport (whose contract needs `lines fit u64`; here only: a function of the blocks)
+    #[verifier::external_body]
+    pub fn to_serializable_report(&self) -> (r: HashMap<PathBuf, Vec<serde_json::Value>>)
+        ensures r@ == list_report_spec(self.blocks@),
+    { unimplemented!() }
+}
+
+// unit V10 of group detect, with its proven contract; call-site obligations (M1) in front
+//@stubof group=detect unit=V10
+    requires
+        !cli_rejected(), // [M1.post.invalid_flags_rejected_before_detection]
+        !is_list_command(process_args()), // [M1.post.list_skips_detection]
+        Some(context.blocks@) == expected_blocks(), // [M1.post.detection_on_the_runs_blocks]
+        detectors@ == detector_table(), // [M1.post.detect_receives_detector_factories]
+        is_name_set(disabled_validators@, process_args().disabled_validators@), // [M1.post.detect_receives_disabled_set]
+        is_name_set(enabled_validators@, process_args().enabled_validators@), // [M1.post.detect_receives_enabled_set]
+
+pub mod validators {
+    use super::*;
+    pub use super::ValidationContext;
+    pub(crate) use super::detect_validators;
+//@copyfrom file=groups/report.rs from=<<    pub uninterp spec fn run_result(>> until=<<    #[verifier::external_body]>>
+
+    /// the constant `DETECTOR_FACTORIES` (function pointers: no Verus support; see group detect)
+    #[verifier::external_body]
+    pub fn verif_detector_factories() -> (r: &'static [(&'static str, DetectorFactory)])
+        ensures r@ == detector_table(),
+    { unimplemented!() }
+}
+
+// unit V8g of group report: the end of `main` (run the validators, report, exit status)
+//@stubof group=report unit=V8g
+
+//@unit id=M1 file=src/main.rs fn=main ret=r rename=verif_main
+//@contract
+    ensures
+        // C14 / C16: a command line that must be rejected ends `main` with `Err` (non-zero exit status) ...
+        cli_rejected() ==> r is Err, // [M1.post.invalid_flags_rejected_up_front]
+        // ... and so does every failing step (`?`): grammar table, glob compilation, root discovery, reading
+        // and parsing the diff, parsing the files
+        r is Ok ==> grammar_table() is Some && expected_allow() is Some && expected_ignore() is Some && expected_root() is Some // [M1.post.every_failure_propagates]
+            && expected_line_changes() is Some && expected_blocks() is Some,
+        // C11: `list`: exit status 0 means the report of the run's blocks was written to stdout
+        r is Ok && is_list_command(process_args()) ==> stdout_write_ok_spec(expected_list_report().unwrap()), // [M1.post.list_ok_means_report_written]
+        // C11 / C14: otherwise exit status 0 means: the validators selected by the flags (V10's contract, for the
+        // run's blocks and exactly the --disable / --enable sets) were run (V8g) and reported no error-severity diagnostic
+        r is Ok && !is_list_command(process_args()) ==> exists|ctx: ValidationContext, s: Vec<Box<dyn ValidatorSync>>, a: Vec<Box<dyn ValidatorAsync>>, en: Set<&'static str>, dis: Set<&'static str>| // [M1.post.ok_means_selected_validators_ran_clean]
+            Some(ctx.blocks@) == expected_blocks()
+            && is_name_set(en, process_args().enabled_validators@) && is_name_set(dis, process_args().disabled_validators@)
+            && #[trigger] v10_ok_post(ctx, detector_table(), en, dis, sync_origins(s@), async_origins(a@))
+            && validators::run_result(Arc::new(ctx), s, a) is Some
+            && !exists_error(validators::run_result(Arc::new(ctx), s, a).unwrap()),
+//@replaceslice rule=SLICE-CALL of=report:V8g
+    proof {
+        // C11: under `list`, `main` has returned before this point: the validators never run
+        assert(!is_list_command(process_args())); // [M1.post.list_skips_validation]
+        assert(!cli_rejected()); // [M1.post.invalid_flags_rejected_before_validation]
+        assert(Some(context.blocks@) == expected_blocks()); // [M1.post.validation_on_the_runs_blocks]
+    }
+    main_run_and_report(context, sync_validators, async_validators)?;
+//@chain rule=E13 find=<<.keys().collect()>> to=verif_keys_collect_set recvprefix=<<&>> optional=1
+//@chain rule=E13 find=<<.is_terminal()>> to=verif_is_terminal count=all optional=1
+//@chain rule=E13 find=<<.read_to_string(>> to=verif_stdin_read_to_string count=all optional=1
+//@edit rule=E13 find=<<validators::DETECTOR_FACTORIES>> count=all optional=1
+validators::verif_detector_factories()
 //@end
 
 } // verus!
